@@ -66,6 +66,14 @@ FINDINGS = [
         site="cdd/shared/defaults_utils.py:extract_default",
         example="as above; description comes back 'the value. Defaults to'",
     ),
+    dict(
+        id="C01-name-ending-in-kwargs-forces-optional-dict",
+        property="C01",
+        pattern=dict(check=RT, field="typ", observed="Optional[dict]", kwargs_name=True),
+        what="a parameter whose *name* ends in 'kwargs' (a plain identifier such as some_kwargs) comes back typed Optional[dict] whatever type was written",
+        site="cdd/shared/docstring_parsers.py:_set_name_and_type (name.endswith('kwargs') special case meant for **kwargs)",
+        example="{'some_kwargs': {'typ': 'int', 'doc': 'the value'}} -> typ 'Optional[dict]' (ReST; Google/NumPy for dict)",
+    ),
 ]
 FIXED = [
     "fixed: property=C01 5a0ba55 negative int default ('Defaults to -5') came back as float -5.0 unless the type was exactly 'int'",
